@@ -1510,7 +1510,9 @@ Qed.
 
 (* ------------------------------------------------------------------ one invocation *)
 Definition covered (cmd : command) : bool :=
-  match cmd with CInit | CMount _ | CChroot _ | CRename _ _ => false | _ => true end.
+  match cmd with CInit | CMount _ | CChroot _ | CRename _ _ | CEdit _ _ => false | _ => true end.
+(* somebody editing a file by hand is not subject to pretend mode *)
+Definition is_edit (cmd : command) : bool := match cmd with CEdit _ _ => true | _ => false end.
 
 Section Invocation.
 Variables (e : env) (um : users_map) (s : mst).
@@ -1588,9 +1590,10 @@ Qed.
 
 (* pretend mode: every command leaves the file tree as it is *)
 Hypothesis Hnd : NoDup (children f0 (c_layers c)).
-Theorem pretend_same cmd : e_pretend e = true -> w_fs (s_w (snd (run_command e c um cmd s))) = f0.
+Theorem pretend_same cmd : e_pretend e = true -> is_edit cmd = false ->
+  w_fs (s_w (snd (run_command e c um cmd s))) = f0.
 Proof.
-  intros Hp.
+  intros Hp Hne.
   assert (W : forall body,
     (forall sk ld, LDI sk ld -> SKF sk -> (forall n, In n (ld_order ld) -> sk_has sk n) ->
        hs (SameFs f0) false (body ld) (fun _ => True)) ->
@@ -1619,6 +1622,7 @@ Proof.
   - apply W. intros. now apply hs_ret.
   - apply kmount_same. exact I.
   - apply kmount_same. exact I.
+  - discriminate.
 Qed.
 End Invocation.
 
@@ -1795,7 +1799,7 @@ Proof.
 Qed.
 
 Definition in_scope (e : env) (cmd : command) (res : rclass) : bool :=
-  covered cmd || e_pretend e
+  covered cmd || (e_pretend e && negb (is_edit cmd))
   || match cmd, res with CRename _ _, ROk => true | CInit, _ => true | _, _ => false end.
 
 Theorem forest_preserved_run e c um cmd s :
@@ -1811,11 +1815,12 @@ Proof.
   apply (forest_ok_iff c) in HF. apply (forest_ok_iff c).
   unfold in_scope in Hsc. apply orb_true_iff in Hsc as [Hsc|Hsc]; [apply orb_true_iff in Hsc as [Hsc|Hsc]|].
   - now apply (forest_kept_covered c Lc PL EL bsr wsr usr HB HW HU Ec bpr gpr HE HBP HGP e um s Hc0 Hn0 Hcl0 HF cmd).
-  - rewrite (pretend_same c e um s (nodup_paths_NoDup _ Hnd) cmd Hsc). exact HF.
+  - apply andb_true_iff in Hsc as [Hsc Hne]. apply negb_true_iff in Hne.
+    rewrite (pretend_same c e um s (nodup_paths_NoDup _ Hnd) cmd Hsc Hne). exact HF.
   - destruct cmd; try discriminate.
     { now apply (init_kept c Lc Ec Bc PL EL HE HBC e um s Hc0 Hn0 HF). }
     destruct (e_pretend e) eqn:Hp.
-    + rewrite (pretend_same c e um s (nodup_paths_NoDup _ Hnd) (CRename a b0) Hp). exact HF.
+    + rewrite (pretend_same c e um s (nodup_paths_NoDup _ Hnd) (CRename a b0) Hp eq_refl). exact HF.
     + pose proof (forest_kept_rename c Lc PL EL bsr wsr usr HB HW HU Ec bpr gpr HE HBP HGP e um s Hc0 Hn0 Hcl0 HF a b0 Hp) as H.
       destruct (run_command e c um (CRename a b0) s) as [[r| | | |] s']; try discriminate. exact H.
 Qed.
